@@ -4,12 +4,12 @@ import shutil, json, os, re, glob, concurrent.futures as cf
 import vf
 
 KINDS = {
-    "C01": {"NoMisroute", "NoReuseWhileOutstanding"},
+    "C01": {"NoMisroute", "NoReuseWhileOutstanding", "ResponseReaches"},
     "C06": {"OutcomeOnce", "OutcomeAllowed", "ReleaseOnce", "ObserverOnce", "NoLeak", "Conservation",
             "CloseReturns", "RequestEnds"},
 }
 MON_FIELDS = dict(ev="", seq=0, req=0, stream=0, tok="", echo="", outcome="", avail=0, closed=0, cap=0, what="")
-MON_EVENTS = {"call", "ret", "n_recv", "n_send", "x_release", "obs_finished", "obs_abandoned", "avail", "env_stuck"}
+MON_EVENTS = {"call", "ret", "n_recv", "n_send", "x_release", "obs_finished", "obs_abandoned", "avail", "env_stuck", "env_expect_resp"}
 
 
 def project_for_monitor(events, conn_id):
@@ -200,7 +200,7 @@ def run_conn(ctx, prop):
 # ---------------------------------------------------------------- strict conformance to Conn.tla
 
 CONF_DROP = {"obs_started", "obs_finished", "obs_abandoned", "avail", "wire", "frame_exp", "env_cancel", "env_failwrite",
-             "written", "closed_ret", "env_held", "env_unhold", "env_extclose_ret", "env_conn", "n_readerr", "env_unsettled", "env_stuck",
+             "written", "closed_ret", "env_held", "env_unhold", "env_expect_resp", "env_extclose_ret", "env_conn", "n_readerr", "env_unsettled", "env_stuck",
              "w_sem", "w_release", "q_enq", "f_flush", "f_ret"}
 CONF_FIELDS = dict(ev="", seq=0, req="", stream=0, a=0, err="none", wn=0, werr="none", tl=0)
 
